@@ -494,3 +494,8 @@ def run(chk):
     r = P.call("tx.py", "strip_blackboxes", clash)
     chk.ob("C06.G.guards", "strip_blackboxes::name overlap", r[0] == "raise" and r[1] == "ValueError", file="tx.py", func="strip_blackboxes", fact={"result": str(r)[:100]}, expect="ValueError")
     chk.floor("composition evaluations", n_eval, 35)
+    # ---- H: call histories about composition, on the repository's own Circuit class against the documented semantics (full stack):
+    # repeated instantiation of the same child object edited in place in between, rejected splices, fills, self-splices
+    from ..history import history_rule
+
+    history_rule(chk, "C06.H", only=lambda name, ops: any(op[0] in ("@add_sub", "@add_sub_kept", "@add_sub_self", "@fill", "@fill_self") for op in ops), floor=40)
